@@ -163,10 +163,13 @@ func runC02(c *Ctx) {
 		"MakeCommit replaces votes for other blocks by absent; the commit carries the vote set's height, round and maj23",
 		"catch-up rounds are bounded per peer",
 		"the map key of a block id covers every field its equality compares (so distinct ids never share a tally)",
+		"the bytes a vote signature is verified over carry the vote's type, height, round and the whole block id (hash, part-set total and hash), so a signature counted for one (height, round, type, block id) was made for exactly that (group shared with C11)",
 	}
 	c.NotDec = []string{"completeness (a real +2/3 is always reported) over all vote sequences", "equality of the accepted set with an independent tally (value-level)"}
 	c.Floors["Q"] = 6
 	c.Floors["G"] = 20
+
+	voteSignBytesRules(c)
 
 	// ---- Q: sweep every comparison involving TotalVotingPower() ---------------------------------
 	type want struct{ fn, class, x, recv, why string }
